@@ -77,9 +77,9 @@ def grep_forbidden(files):
     return hits
 
 
-def lean_audit(pid):
+def lean_audit(pid, path=None):
     """Run Audit/<pid>.lean (a list of `#print axioms`); returns {theorem: [axioms]}."""
-    path = os.path.join('Audit', pid + '.lean')
+    path = path or os.path.join('Audit', pid + '.lean')
     lk = _lock()
     try:
         p = subprocess.run(['lake', 'env', 'lean', path], cwd=LEAN, stdout=subprocess.PIPE,
@@ -287,6 +287,7 @@ class Result:
         self.cov['obligations'] = len(self.obligations)
         self.cov['discharged'] = len(self.discharged)
         self.cov['obligation_names'] = self.obligations
+        self.cov['undischarged'] = [o for o in self.obligations if o not in self.discharged]
         self.cov['checker_cmd'] = checker_cmd or ('cd lean && lake build && lake env lean Audit/%s.lean' % self.pid)
         self.cov['trusted_base'] = trusted or []
         self.cov.update(self.notes)
@@ -318,9 +319,9 @@ TRUSTED_COMMON = [
 ]
 
 
-def proof_stage(res, pid, extra_targets=()):
+def proof_stage(res, pid, targets=('Pyx12Verif', 'pyx12model'), audit_path=None):
     """Build + audit.  Records obligations; anything that fails goes to res.broken."""
-    ok, log = lean_build()
+    ok, log = lean_build(targets)
     if not ok:
         errs = [l for l in log.split('\n') if 'error' in l][:20]
         res.broke('lake build', '\n'.join(errs))
@@ -329,7 +330,7 @@ def proof_stage(res, pid, extra_targets=()):
     hits = grep_forbidden(lean_files_of(pid))
     if hits:
         res.broke('forbidden-token', '; '.join(hits[:10]))
-    axioms, missing, (rc, tail) = lean_audit(pid)
+    axioms, missing, (rc, tail) = lean_audit(pid, audit_path)
     for thm, ax in sorted(axioms.items()):
         res.obligations.append(thm)
         if set(ax) <= STD_AXIOMS:
